@@ -57,22 +57,28 @@ func cacheAlphabet(level int, withCallbacks bool) []CIn {
 	return ev
 }
 
-func genC01(tier string) []*Scenario {
-	lvl := lvlOf(tier)
+// genSeqCache builds the sequence-search jobs. prop C01 compares every output except the
+// callback ledger; prop C06 compares the ledger only (and stops expanding where other outputs differ).
+func genSeqCache(prop string, lvl int) []*Scenario {
 	var out []*Scenario
 	for twin := 0; twin < 3; twin++ {
 		for _, cb := range []bool{false, true} {
+			if prop == "C06" && !cb {
+				continue
+			}
 			if lvl == 0 && twin == 2 && cb {
 				continue
 			}
 			cfg := CacheCfg{Twin: twin, HasIvl: true, Ivl: 0}
-			name := fmt.Sprintf("C01/seq/%s/callback=%v", twinNames[twin], cb)
-			sp := newCacheSeqSpec(name, cfg, durNoExp, cb, cacheAlphabet(lvl, cb), 0)
-			out = append(out, &Scenario{Name: name, Prop: "C01", Seq: sp, ExpectOutcomes: 2})
+			name := fmt.Sprintf("%s/seq/%s/callback=%v", prop, twinNames[twin], cb)
+			sp := newCacheSeqSpec(name, cfg, durNoExp, cb, cacheAlphabet(lvl, cb), 0, prop)
+			out = append(out, &Scenario{Name: name, Prop: prop, Seq: sp, ExpectOutcomes: 2})
 		}
 	}
 	return out
 }
+
+func genC01(tier string) []*Scenario { return genSeqCache("C01", lvlOf(tier)) }
 
 var e2Assumptions = []string{
 	"single goroutine; virtual clock (package time is substituted in package cache); janitor disabled (cleanup interval 0)",
